@@ -23,6 +23,7 @@ def mk_atomic(kind, t):
         loc = _cell(e, st, args[0])
         hook = getattr(e, 'atomic_hook', None)
         if kind == 'Load':
+            e.apply_rely(fr, st, loc)
             if hook: hook(fr, st, 'load', loc, None, None, ins, site)
             v = e.load_loc(st, loc)
             return cont(st, v)
